@@ -44,6 +44,34 @@ CLAIMED = {
    note="Trusted: Coq kernel, extraction+driver, harness, strictzip.py.",
    technique="Coq proof (alignment arithmetic for all offsets and alignments, extra-data validation lemmas) + byte-exact writer-model correspondence",
    design="8 (C17)"),
+ "C13": dict(
+   text="Machine-checked Coq theorems over the writer model: opening for append re-hydrates exactly the directory the reader "
+        "model parses (same find_eocd / get_directory_counts / parse_cd), keeps every byte of the sink, positions it on the "
+        "old directory start, keeps the archive comment and sets the raw flag that protects the last old entry; the record "
+        "re-emitted for an old entry carries its name, method, CRC, sizes, time, attributes, made-by and header offset.  "
+        "Histories are carried by the correspondence: base -> (append k entries, maybe replace the comment, finish)* with up "
+        "to 4 (thorough 8) rounds over bases from the crate, the independent builder (prefix, forced ZIP64 records and extras, "
+        "data descriptors, CP437 names, encrypted neighbour, entry comments), CPython zipfile and the empty archive; each "
+        "round's bytes equal the model's; oracle after every round through by_index_raw on old and new archive: old "
+        "entries unchanged and in order (name, method, sizes, CRC, time, mode, stored bytes, header offset), new entries "
+        "follow and decode to what was written, comment kept unless replaced (found and fixed D19: stale end record).",
+   note="Trusted: Coq kernel, extraction+driver, harness, genzip.py/zipfile as base producers, CPython zlib/bz2. PARTIAL: 'old bytes are never touched by any call sequence' and the reader-level theorem over appended archives are not yet proved; multi-round preservation is decided per generated history.",
+   technique="Coq proof (state established by new_append, re-emitted record fields) + byte-exact multi-round append correspondence with by_index_raw oracle",
+   design="8 (C13)"),
+ "C14": dict(
+   text="Machine-checked Coq theorem over the writer model, for every writer state whose previous entry closes onto a "
+        "well-behaved sink, every source record (any method code, any sizes) with its undecoded bytes and every admissible "
+        "name: raw copy succeeds, the sink becomes old bytes ++ local header ++ the source bytes verbatim (nothing before is "
+        "touched, the compressor and checksum functions are never consulted), the record kept for the directory carries the "
+        "source's method, CRC-32, sizes, timestamp and Unix mode (fix D18), and closing the entry rewrites and recomputes "
+        "nothing.  Correspondence: every entry of sources from the independent builder (decodable and undecodable methods, "
+        "empty, data descriptors, DOS/Unix/other made-by, modes incl. setuid/000/symlink/dir, ZIP64 extras, prefix, odd "
+        "times), the crate's writer (all methods x levels) and CPython zipfile, copied alone/first/last/between ordinary "
+        "entries, renamed or not, plus random interleavings; archive bytes equal the model's; oracle: payload bytes equal "
+        "(independent parser and by_index_raw), metadata equal, decodes to the same content, neighbours intact.",
+   note="Trusted: Coq kernel, extraction+driver, harness, genzip.py/zipfile producers, strictzip.py. The reader side (by_index_raw yields the csize bytes at the data start) is the reader model compared by correspondence, not a separate theorem.",
+   technique="Coq proof (raw copy on an ideal sink: verbatim bytes, source metadata, no recomputation) + byte-exact correspondence over independent sources",
+   design="8 (C14)"),
  "C03": dict(
    text="Machine-checked Coq theorems over the reader model: lookup by name returns the LAST entry carrying the decoded "
         "name, an absent name and an out-of-range index are not-found, an undecodable method fails that entry only.  "
